@@ -43,6 +43,7 @@ type batchModel struct {
 // genBatchModel builds a per-sample model of family A, B or C.
 func genBatchModel(r *gen.R) *batchModel {
 	p := newProgram(r)
+	var extraInputs []batchedInput
 	fam := r.Intn(3)
 	var cur string
 	axis := 0
@@ -106,9 +107,36 @@ func genBatchModel(r *gen.R) *batchModel {
 		w := p.addInit("W", p.smallWeights([]int{1, G * H, I}, 0.4))
 		rr := p.addInit("R", p.smallWeights([]int{1, G * H, H}, 0.4))
 		ins := []string{cur, w, rr}
-		if r.Bool() {
-			ins = append(ins, p.addInit("B", p.smallWeights([]int{1, 2 * G * H}, 0.5)))
+		opt := []string{"", "", "", "", ""} // B, sequence_lens, initial_h, initial_c, P
+		if r.Chance(0.6) {
+			opt[0] = p.addInit("B", p.smallWeights([]int{1, 2 * G * H}, 0.5))
 		}
+		if r.Chance(0.5) { // batched initial state supplied by the caller
+			opt[2] = "h0"
+			p.addInput("h0", uniformT(r, ref.F32, []int{1, N0, H}, 1), []mon.Dim{{Value: 1}, {Param: "N"}, {Value: int64(H)}})
+			p.BatchAxis["h0"] = 1
+			extraInputs = append(extraInputs, batchedInput{"h0", []int{1, N0, H}, 1})
+		}
+		nOpt := 3
+		if op == "LSTM" {
+			nOpt = 5
+			if r.Chance(0.5) {
+				opt[3] = "c0"
+				p.addInput("c0", uniformT(r, ref.F32, []int{1, N0, H}, 1), []mon.Dim{{Value: 1}, {Param: "N"}, {Value: int64(H)}})
+				p.BatchAxis["c0"] = 1
+				extraInputs = append(extraInputs, batchedInput{"c0", []int{1, N0, H}, 1})
+			}
+			if r.Chance(0.6) {
+				opt[4] = p.addInit("P", p.smallWeights([]int{1, 3 * H}, 0.5))
+			}
+		}
+		lastOpt := -1
+		for i := 0; i < nOpt; i++ {
+			if opt[i] != "" {
+				lastOpt = i
+			}
+		}
+		ins = append(ins, opt[:lastOpt+1]...)
 		at := ref.RecAttrs{Hidden: H}
 		nOut := 2
 		if op == "LSTM" {
@@ -130,11 +158,11 @@ func genBatchModel(r *gen.R) *batchModel {
 			var err error
 			switch op {
 			case "RNN":
-				ts, err = ref.RNN(in[0], in[1], in[2], get(in, 3), nil, at)
+				ts, err = ref.RNN(in[0], in[1], in[2], get(in, 3), get(in, 5), at)
 			case "GRU":
-				ts, err = ref.GRU(in[0], in[1], in[2], get(in, 3), nil, at)
+				ts, err = ref.GRU(in[0], in[1], in[2], get(in, 3), get(in, 5), at)
 			default:
-				ts, err = ref.LSTM(in[0], in[1], in[2], get(in, 3), nil, nil, nil, at)
+				ts, err = ref.LSTM(in[0], in[1], in[2], get(in, 3), get(in, 5), get(in, 6), get(in, 7), at)
 			}
 			if err != nil {
 				return nil, err
@@ -227,12 +255,27 @@ func genBatchModel(r *gen.R) *batchModel {
 	for _, o := range outs {
 		spec.BatchAxis[o] = p.BatchAxis[o]
 	}
+	for _, e := range extraInputs {
+		spec.BatchAxis[e.name] = e.axis
+	}
 	spec.Feed = func(r *gen.R, b int) map[string]*ref.T {
 		s := append([]int{}, inShape...)
 		s[inAxis] = b
-		return map[string]*ref.T{inName: uniformT(r, ref.F32, s, 1)}
+		feed := map[string]*ref.T{inName: uniformT(r, ref.F32, s, 1)}
+		for _, e := range extraInputs {
+			es := append([]int{}, e.shape...)
+			es[e.axis] = b
+			feed[e.name] = uniformT(r, ref.F32, es, 1)
+		}
+		return feed
 	}
 	return &batchModel{spec: spec, desc: desc}
+}
+
+type batchedInput struct {
+	name  string
+	shape []int
+	axis  int
 }
 
 // takeRows selects rows along an axis.
